@@ -1306,6 +1306,11 @@ const DOC_TEXTS: &[(&str, &str)] = &[
     ("block-terminator", "\n ends */ early\n"),
     ("slash-slash", " // not a comment"),
     ("template", " `${x}`"),
+    ("leading-slash", "/etc/passwd is read"),
+    ("leading-slash-multiline", "/ x\ny"),
+    ("object-intersection-words", " has { a } & { b } inside"),
+    ("trailing-star", " ends with *"),
+    ("only-slash", "/"),
 ];
 
 fn doc_attrs(texts: &[&str]) -> String {
